@@ -27,7 +27,7 @@ for pid in sorted(props):
         n = open(notes).read() if os.path.exists(notes) else ''
         meta.update({
             'id': sid, 'property': pid, 'title': props[pid]['title'],
-            'origin': 'independent sub-agent given only the property text and a scratch worktree of /repo (round %d)' % (2 if OFFSET else 1),
+            'origin': 'independent sub-agent given only the property text and a scratch worktree of /repo (round %d)' % (OFFSET // 2 + 1),
             'base_commit': head,
             'files_touched': sorted(set(re.findall(r'^\+\+\+ b/(\S+)', open(patch).read(), re.M))),
             'needs_to_manifest': (re.search(r'(?is)(manifest|trigger|needs)[^\n]*\n(.{0,900})', n).group(0)[:900] if re.search(r'(?i)manifest|trigger|needs', n) else n[:600]),
